@@ -10,6 +10,7 @@ failed copy changes nothing, and after every successful copy a second pass check
 destination is Ok and Equals the source.
 """
 import collections
+import time
 import json
 
 from harness.lib import common, cppdrv, embref, viewcorr
@@ -118,7 +119,8 @@ def _run(chk, tier, model_ok):
         else:
             chk.violation("input", {"module": PARAM_PROBE, "command": "instantiate In::Equals",
                                     "observed": plog[-1500:], "expected": "Equals compiles"}, key=KEY_PARAM)
-    cases, dist = viewcorr.make_cases(chk, r, 12 if quick else 100, corpus_prop=PROP)
+    cases, dist = viewcorr.make_cases(chk, r, 9 if quick else 60, corpus_prop=PROP,
+                                      testdata=viewcorr.TESTDATA[:6] if quick else viewcorr.TESTDATA)
     failed = viewcorr.build_cases(cases, features=("eq", "cp"), workers=8, eq_params_ok=eq_params_ok,
                                   std="c++14" if quick else "c++17")
     for c in failed:
@@ -126,11 +128,14 @@ def _run(chk, tier, model_ok):
     per_case = []
     crashes = []
     for case in cases:
+        if len(chk.violations) >= 12:
+            chk.extra["stopped_early"] = "12 violations reported; remaining cases not run"
+            break
         cmds = viewcorr.pair_commands(r, case, 8 if quick else 24)
 
         def on_crash(cmd, rr, case=case):
             crashes.append((case.name, cmd, viewcorr.crash_key(rr, cmd)))
-        answers = viewcorr.run_surviving(case, cmds, on_crash)
+        answers = viewcorr.run_surviving(case, cmds, on_crash, max_crashes=6)
         followups = []
         for c, a in zip(cmds, answers):
             if a is None:
